@@ -160,6 +160,10 @@ class Ctx:
     def facts(self, kinds):
         d = build.ensure_facts(kinds)
         self.kinds = sorted(set(self.kinds) | set(kinds))
+        if self.db is not None and self.db.dir != d:
+            # the tree changed between two requests of one run: all kinds must come from the same tree
+            d = build.ensure_facts(self.kinds)
+            self.db = None
         if self.db is None:
             self.db = facts.DB(d)
         return self.db
